@@ -81,7 +81,7 @@ theorem xorAt_length (st : Bytes) (ofs : Nat) (bs : Bytes) : (xorAt st ofs bs).l
 
 theorem xorAt_zeros (st : Bytes) (ofs n : Nat) : xorAt st ofs (List.replicate n 0) = st := by
   induction st generalizing ofs n with
-  | nil => cases ofs <;> cases n <;> simp [xorAt, List.replicate_succ]
+  | nil => cases ofs <;> cases n <;> simp [xorAt]
   | cons s st ih =>
     cases ofs with
     | zero => cases n with
